@@ -52,7 +52,8 @@ func TestCheck(t *testing.T) {
 	r.Assume = append(r.Assume,
 		"one batch commit is atomic (backend contract, C15); a crash is modelled between commits of the db.KeyValueStore seam (faultdb over db/memory)",
 		"old-layout databases are produced with the frozen legacy writer migration/blocktransactions/txlayout (TransactionLayoutPerTx) and commitments without StateDiffLength",
-		"blocktransactions commit orders: each ingest range in its own batch, all orders; batches holding several ranges produce a subset of these crash images",
+		"blocktransactions commit orders: on chains of <= 4 ingest ranges each range has its own worker and batch, all orders; on the long quiet chains (more ranges than the 4 ingest workers) a released worker takes the next range from the source, so a batch holds several ranges: which ones is decided by the release policy rank = perm[range mod 4], lower range first (24 policies on the first process start, 2 quick / 4 thorough later), not by all assignments; interruption points on those chains, and on the quiet chains of <= 36 blocks, are enumerated for the blocktransactions phase only (up to the commit that records it as applied); the later phases do not depend on the transaction pattern and are interrupted on the other chains",
+		"an empty block without a combined entry is excused (known finding: start-block discovery) only below the obligation floor of its history = the lowest start range (first block with legacy entries in the start image, rounded down to 10) of a run that recorded blocktransactions as applied or that ended in a graceful cancellation after it was observed to read the header of every block from its start range to the tip; at or above the floor it is reported under its own key; the floor is part of a state's identity only when it makes a difference (image lacks an obliged block)",
 		"a transient read fault (the k-th point read on the store fails once) is injected at every point read of the first process start under the canonical commit order; the run then dies with an error and every image it passed is a start state",
 		"cancel-at-read injections race with the source goroutine (free-running after the injection); outcomes are checked, not the exact emission count",
 		"statedifflength: the assignment of blocks to the per-worker batches follows two release policies (lowest / highest parked block first), not all assignments; its writes are per-block idempotent",
@@ -81,6 +82,17 @@ func TestCheck(t *testing.T) {
 		shapes = append(shapes, shapeSpec{Name: fmt.Sprintf("%d blocks %s prune-mode toggled, retain %d, L1 head %d below the tip", n, pat, retained, lag),
 			Shape: mkShape(n, pat), PruneR: retained, L1Lag: lag})
 	}
+	// quiet chains: whole 10-block ranges of empty blocks ABOVE a non-empty first block, which every run starting below
+	// them has to ingest (a worker's share then consists of empty-block entries only); the long ones have more ranges
+	// than ingest workers, so a worker's batch holds several ranges (which ones: the release policy) and a graceful
+	// cancellation stops the source before every range was handed out (partial pass without a crash).
+	// addBT: interruption points of the blocktransactions phase only: the later phases do not depend on the transaction
+	// pattern and are interrupted on the other chains (interrupting them here as well multiplies the frontier by the
+	// number of distinct partly-visited images, 75 CPU-minutes for 5 chains when it was tried).
+	addBT := func(n int, pat string) {
+		shapes = append(shapes, shapeSpec{Name: fmt.Sprintf("%d blocks %s (%d ingest ranges, blocktransactions-phase interruptions)", n, pat, (n+9)/10),
+			Shape: mkShape(n, pat), PruneR: -1, BTOnly: true})
+	}
 	if r.Quick() {
 		addPruneShape(14, "dense", 3)
 		addPruneShapeLag(14, "dense", 3, 11) // L1 head 2 < retained 3 <= height 13: nothing may be pruned
@@ -90,6 +102,9 @@ func TestCheck(t *testing.T) {
 		addShape(36, "sparse", 0)
 		addShape(12, "lead-empty", 0)
 		addShape(23, "mixed", 7)
+		addBT(31, "quiet")      // ranges 1..3 all-empty above a busy first range, the last one a single block
+		addBT(25, "tail-empty") // two busy ranges, then an all-empty range at the head
+		addBT(52, "quiet")      // 6 ranges for 4 workers
 	} else {
 		// special shapes first so that a budget cut never drops them
 		addPruneShape(14, "dense", 3)
@@ -102,6 +117,14 @@ func TestCheck(t *testing.T) {
 			addShape(n, "sparse", 0)
 			addShape(n, "lead-empty", 0)
 		}
+		addBT(31, "quiet")
+		addBT(36, "quiet")
+		addBT(36, "quiet-mid")
+		addBT(25, "tail-empty")
+		addBT(36, "tail-empty")
+		addBT(52, "quiet")
+		addBT(52, "quiet-mid")
+		addBT(75, "quiet")
 		for _, p := range []int{7, 10} {
 			addShape(23, "mixed", p)
 			addShape(36, "mixed", p)
@@ -136,6 +159,6 @@ func TestCheck(t *testing.T) {
 	r.Set("distinct_nontrivial", r.Get("states"))
 	r.Set("traces_validated_against_impl", r.Get("evaluations"))
 	r.Set("rule", "a: BFS over (durable image, completed set): every process start = registry (1..4 migrations x optional flags) x one scripted outcome per Migrate/Before call (19 outcomes) x crash after / failure of every commit; "+
-		"b: BFS over durable images of old-layout chains: every commit order of the ingest ranges x {uninterrupted, crash after each commit, cancel at each commit, cancel at first read of each work item (bt range, sdl / stager / restorer block), cancel before run, failure of each commit} x prune configuration {off, on R, on window > chain} per process start on the prune chains, <=2 interruptions then a clean run (second process start: 4 commit orders thorough; quick tier: 2 orders and only crash / cancel-at-commit; runner BFS depth 3 quick / 4 thorough process starts); non-trivial = distinct durable images")
+		"b: BFS over durable images of old-layout chains (incl. quiet chains: all-empty 10-block ranges above a busy first range / at the head, and chains with more ranges than ingest workers): every commit order of the ingest ranges x {uninterrupted, crash after each commit, cancel at each commit, cancel at first read of each work item (bt range, sdl / stager / restorer block), cancel before run, failure of each commit} x prune configuration {off, on R, on window > chain} per process start on the prune chains, <=2 interruptions then a clean run (second process start: 4 commit orders thorough; quick tier: 2 orders and only crash / cancel-at-commit; runner BFS depth 3 quick / 4 thorough process starts); non-trivial = distinct durable images")
 	r.Finish()
 }
